@@ -12,3 +12,5 @@ func readJSON(path string, v interface{}) error {
 	}
 	return json.Unmarshal(data, v)
 }
+
+func dropViolations(ctx *runCtx) { ctx.rep.DropViolations() }
